@@ -696,17 +696,14 @@ func c09Listing(c *kit.Ctx, a *c09Anchors) {
 		if g.Body == nil {
 			continue
 		}
-		ast.Inspect(g.Body, func(n ast.Node) bool {
-			if r, ok := n.(*ast.RangeStmt); ok && r.Value != nil {
-				if o := kit.ObjOf(info, r.Value); o != nil {
-					rangeOf[o] = r
-					if funcOfRange[r] == nil || g.Lit != nil {
-						funcOfRange[r] = g
-					}
+		for _, r := range g.SliceLoops(g.Node()) {
+			for o := range kit.ElemAliases(info, r) {
+				rangeOf[o] = r
+				if funcOfRange[r] == nil || g.Lit != nil {
+					funcOfRange[r] = g
 				}
 			}
-			return true
-		})
+		}
 	}
 
 	fl := newC09Flow(list)
